@@ -72,8 +72,9 @@ def main(argv):
             return 1
         d = os.path.join(VERIF, "seeded", keep)
         os.makedirs(d, exist_ok=True)
-        shutil.copy(patch, os.path.join(d, "patch.diff"))
-        shutil.copy(demo, os.path.join(d, "demo.py"))
+        if os.path.abspath(seed) != os.path.abspath(d):
+            shutil.copy(patch, os.path.join(d, "patch.diff"))
+            shutil.copy(demo, os.path.join(d, "demo.py"))
         meta = {}
         try:
             meta = json.load(open(os.path.join(seed, "meta.json")))
